@@ -25,12 +25,50 @@ from rules import shared, util
 SPEC = "/verif/spec"
 
 
+def _labels(ctx, b, op):
+    return ctx.prov.resolve_upvars(b, ctx.prov.read_operand(b, op))
+
+
+INFALLIBLE_JSON = re.compile(r"^&?(&?str|usize|u64|u32|i64|bool|std::string::String|std::collections::HashMap<std::string::String, std::string::String>|std::option::Option<&?str>|&std::string::String|&usize|&bool|&std::collections::HashMap<std::string::String, std::string::String>)$")
+
+
+def auto_discharge(ctx, s):
+    """Function-independent discharges by contract. Returns (class, reason) or None."""
+    kind = s["kind"]
+    b = s["body"]
+    t = s.get("term") or {}
+    if kind in ("std:join",):
+        return ("std-contract", "JoinHandle::join returns Err for a panicked thread; it does not panic itself")
+    if kind in ("std:spawn",) and (t.get("def") or "").startswith("std::thread::spawn"):
+        return ("os-failure", "std::thread::spawn panics only if the OS cannot create a thread; not input dependent")
+    if kind == "std:drain" and ((t.get("arg_tys") or ["", ""]) + [""])[1] == "std::ops::RangeFull":
+        return ("std-contract", "drain(..) over the full range cannot be out of bounds")
+    if kind == "index-json":
+        return ("std-contract", "Index<&str> / Index<usize> for serde_json::Value returns Null for a missing key; it does not panic")
+    if kind in ("index-str", "index-slice") and t.get("args") and len(t["args"]) > 1:
+        labs = _labels(ctx, b, t["args"][1])
+        calls = {l[1] for l in labs if l[0] == "call"}
+        other = {l for l in labs if l[0] not in ("call", "const")}
+        if calls and not other and all(re.search(r"^tree_sitter::Node::<'tree>::(byte_range|start_byte|end_byte)$", c) for c in calls) and not any(l[0] == "const" for l in labs):
+            return ("dependency-contract", "tree-sitter reports node byte ranges inside the parsed UTF-8 text and on char boundaries")
+        if calls and not other and all(re.search(r"<impl \[T\]>::partition_point$", c) for c in calls) and (s["index"][0] == "agg" and s["index"][1].endswith("RangeFrom")):
+            rl = _labels(ctx, b, t["args"][0])
+            return ("std-contract", "partition_point returns an index <= len")
+    if kind == "unwrap" and s.get("operand") and s["operand"][0] == "call" and s["operand"][1] == "serde_json::to_value":
+        ct = b.blocks[s["operand"][3]]["term"] if len(s["operand"]) > 3 and isinstance(s["operand"][3], int) else None
+        ty = ((ct or {}).get("targs") or [""])[0]
+        if INFALLIBLE_JSON.match(ty):
+            return ("std-contract", "serde_json::to_value cannot fail for `%s`" % ty)
+    return None
+
+
 def run(ctx, out, tier):
     table = json.load(open(os.path.join(SPEC, "panic_sites.json")))
     loops_t = json.load(open(os.path.join(SPEC, "loops.json")))
     bodies = ctx.reachable_bodies()
     S = census.sites(ctx, bodies)
-    n_auto = n_tab = 0
+    n_auto = n_tab = n_contract = 0
+    groups = {}
     by_class = {}
     used = set()
     samples = []
@@ -50,21 +88,36 @@ def run(ctx, out, tier):
             if not bad:
                 n_auto += 1
                 continue
-        d = table.get(s["key"])
-        if d is not None:
-            n_tab += 1
-            used.add(s["key"])
-            by_class[d["class"]] = by_class.get(d["class"], 0) + 1
-            if len(samples) < 5:
-                samples.append("%s: %s" % (s["key"].split("|", 1)[1][:70], d["class"]))
+        ad = auto_discharge(ctx, s)
+        if ad is not None:
+            n_contract += 1
+            by_class[ad[0]] = by_class.get(ad[0], 0) + 1
             continue
-        out.viol("C04.census", "C04.census|%s" % s["key"], ctx.where(b, s["span"]),
-                 "panic-capable site without a discharge: %s `%s` in %s — if its operand can take the failing value for some file, diff or attribute text, blockwatch aborts (exit 101) instead of reporting; give the site a guard, make the operation total, or record the invariant that makes it safe in spec/panic_sites.json" % (s["kind"], s["detail"], b.id))
+        groups.setdefault(s["ckey"], []).append(s)
+    for ck, ss in sorted(groups.items()):
+        d = table.get(ck)
+        if d is not None and len(ss) <= d["count"]:
+            n_tab += len(ss)
+            used.add(ck)
+            by_class[d["class"]] = by_class.get(d["class"], 0) + len(ss)
+            if len(samples) < 5:
+                samples.append("%s: %s" % (ck[:70], d["class"]))
+            continue
+        have = d["count"] if d else 0
+        for s in ss:
+            b = s["body"]
+            known = d is not None and b.id in d.get("sites", [])
+            if known and have > 0:
+                have -= 1
+                continue
+            out.viol("C04.census", "C04.census|%s|%s" % (ck, b.id if d is None else "+%d" % (len(ss) - d["count"])), ctx.where(b, s["span"]),
+                     "panic-capable site without a discharge: %s `%s` in %s (%s) — if its operand can take the failing value for some file, diff or attribute text, blockwatch aborts (exit 101) instead of reporting; give the site a guard, make the operation total, or record the invariant that makes it safe in spec/panic_sites.json"
+                     % (s["kind"], s["detail"], b.id, "no site of this shape is reviewed in this file" if d is None else "%d site(s) of this shape in this file, %d reviewed" % (len(ss), d["count"])))
     unused = sorted(set(table) - used)
     if unused:
         out.note("discharge entries that match no site any more (informational): %d" % len(unused))
-    out.inst("C04.census", n_auto + n_tab, 150, samples,
-             note="%d panic-capable sites: %d auto-safe additions, %d tabled %s" % (len(S), n_auto, n_tab, json.dumps(by_class, sort_keys=True)))
+    out.inst("C04.census", n_auto + n_tab + n_contract, 150, samples,
+             note="%d panic-capable sites: %d auto-safe additions, %d discharged by a std / dependency contract rule, %d tabled (file|kind|shape with counts) %s" % (len(S), n_auto, n_contract, n_tab, json.dumps(by_class, sort_keys=True)))
 
     # ------------------------------------------------------------------ loops
     L = census.cycles(ctx, bodies)
@@ -74,8 +127,16 @@ def run(ctx, out, tier):
     for l in L:
         b = l["body"]
         variants[l["variant"]] = variants.get(l["variant"], 0) + 1
-        if l["variant"] in ("iterator", "await"):
+        if l["variant"] in ("iterator", "await", "tree-cursor", "counter"):
             n_l += 1
+            continue
+        if l["variant"] == "shrinking-slice":
+            n_l += 1
+            # the tag scanner: the advance past a rejected `<` must be exactly 1 (>= 1 terminates,
+            # <= 1 skips no candidate tag)
+            if "tag_parser" in (b.span or {}).get("file", "") and l["detail"] != "1":
+                out.viol("C04.loops", "C04.loops|cursor-constant", ctx.where(b),
+                         "the tag scanner re-slices the input by %s after a rejected `<`; the advance must be exactly 1 (0 never terminates, more than 1 skips candidate tags)" % l["detail"])
             continue
         key = l["key"]
         seen_keys[key] = seen_keys.get(key, 0) + 1
